@@ -117,6 +117,20 @@ theorem C27_notify_without_lock (s s' : St) (h : step s .handleD = some s') :
     exact ⟨rfl, hg.2⟩
   · simp at h
 
+/-- the error path never waits for the application: a failing publish — including the
+    fan-out of an error to every subscription (`notifyAllSubscriptionsOfError` /
+    `notifySubscriptionOfError` start one goroutine per subscription and return) — takes the
+    loop straight to its self-pause with the lock state unchanged; there is no state in which
+    the loop holds `subMux` (not even for reading) while an error notification is pending -/
+theorem C27_error_fanout_without_lock (s s' : St) (h : step s .respErr = some s') :
+    s'.loop = .selfPause ∧ s'.mux = s.mux ∧ s'.pause = s.pause ∧ s'.resume = s.resume := by
+  simp only [step] at h
+  split at h
+  · simp only [Option.some.injEq] at h
+    subst h
+    exact ⟨rfl, rfl, rfl, rfl⟩
+  · simp at h
+
 /-- a ForgetSubscription / Cancel called with a context that has a deadline never wedges the
     client: while it holds subMux waiting for room in pausech, giving up at the deadline
     is always possible, after which the lock is free again.  (Compare
